@@ -231,6 +231,16 @@ def main():
         opts.update(getattr(h, 'OPTS', {}).get(tier, {}))
         budget = h.TIME_BUDGET[tier]
         opts['deadline'] = time.time() + budget
+        # ---- vacuity twins: on a sample of shapes the harness followed by assert(false) must be violated, i.e. some
+        # path satisfies every assumption and reaches the end of the harness
+        step = max(1, len(shapes) // 16)
+        twin_shapes = shapes[::step][:16]
+        topts = dict(opts, twin=True, first_only=False, deadline=time.time() + min(300, budget))
+        twins = engine.run_harness(pid.lower(), twin_shapes, topts, procs=args.procs)
+        twin_ok = sum(1 for r in twins if any(v['what'] == 'reachability witness' for v in r['violations']))
+        twin_other = [v['what'] for r in twins for v in r['violations'] + r['bounds'] if v['what'] != 'reachability witness']
+        log.append('vacuity twins: %d of %d sampled shapes reach the end of the harness' % (twin_ok, len(twin_shapes)))
+        opts['deadline'] = time.time() + budget
         results = engine.run_harness(pid.lower(), shapes, opts, procs=args.procs)
         tot = engine.summarize(results)
         # ---- triage violations by native replay
@@ -294,6 +304,14 @@ def main():
         for l in kf_lines:
             print(l)
         incon = list(tot['unsupported'])
+        # vacuity guard: a run in which no path reaches the end of the harness (or no property assertion is
+        # discharged) proves nothing; shapes without a completed path are reported in the evidence
+        vacuous = [r['shape'] for r in results if r['ok_paths'] == 0 and not r['violations'] and not r['bounds']
+                   and not r['unsupported']]
+        if not reproduced and not tot['violations'] and not tot['bounds'] and (tot['ok_paths'] == 0 or tot['requires'] == 0):
+            incon.append('vacuous run: no path reached the end of the harness / no property assertion was discharged')
+        if twin_ok == 0 and not twin_other and not tot['violations'] and not tot['bounds']:
+            incon.append('vacuous harness: no sampled shape reaches the end of the harness (reachability twin not violated)')
         if not_reproduced:
             incon.append('encoder disagreement: %d symbolic counterexample(s) did not reproduce natively, e.g. %s'
                          % (len(not_reproduced), json.dumps(not_reproduced[0], default=str)[:400]))
@@ -327,6 +345,9 @@ def main():
             'bounds': h.BOUNDS[tier], 'outside_bounds': getattr(h, 'OUTSIDE', []),
             'model_validation_cases': nval_models, 'mir_dump_seconds': round(mir_s, 1),
             'known_findings_reported': kf_lines, 'inconclusive_reasons': incon[:5],
+            'vacuity_twins': {'sampled_shapes': len(twin_shapes), 'reached_end': twin_ok},
+            'shapes_without_completed_path': {'count': len(vacuous), 'examples': vacuous[:3],
+                                              'note': 'every path of these shapes violates a harness precondition (assume)'},
             'non_reproducing_counterexamples': len(not_reproduced), 'log': log,
         }
         ev['coverage'] = cov
